@@ -52,8 +52,8 @@ def expand_with_depth(abbr, cfg):
 
     def on_alarm(signum, frame):
         raise Timeout()
-    old = signal.signal(signal.SIGALRM, on_alarm)
-    signal.setitimer(signal.ITIMER_REAL, TIME_LIMIT)
+    old = signal.signal(signal.SIGPROF, on_alarm)
+    signal.setitimer(signal.ITIMER_PROF, TIME_LIMIT)
     try:
         r = impl_expand(abbr, cfg)
     except Timeout:
@@ -61,8 +61,8 @@ def expand_with_depth(abbr, cfg):
     except TooDeep:
         r = ('too-deep',)
     finally:
-        signal.setitimer(signal.ITIMER_REAL, 0)
-        signal.signal(signal.SIGALRM, old)
+        signal.setitimer(signal.ITIMER_PROF, 0)
+        signal.signal(signal.SIGPROF, old)
         ms.parse = orig
     return r, maxd[0]
 
